@@ -57,6 +57,18 @@ Theorem c12_printed_tuple_pattern_has_the_written_arity : forall prefix bs,
 Proof. exact printed_tuple_pattern_arity. Qed.
 Print Assumptions c12_printed_tuple_pattern_has_the_written_arity.
 
+(* ... with no rest token among them: a `..` written as an element of a tuple / tuple-struct / tuple-variant pattern is never lowered to
+   Rust's rest pattern (as the `..` of a slice pattern is), so rustc compares the arity with the declaration exactly *)
+Theorem c12_printed_tuple_pattern_has_no_rest : forall prefix bs,
+  forallb (fun t => negb (is_dot t)) (term_by (Print.comma SCall) (map (Print.pp_binder prefix) bs)) = true.
+Proof. exact printed_tuple_pattern_has_no_rest. Qed.
+Print Assumptions c12_printed_tuple_pattern_has_no_rest.
+
+Theorem c12_printed_variant_pattern_has_no_rest : forall sp prefix bs,
+  forallb (fun t => negb (is_dot t)) (sep_by (Print.comma sp) (map (Print.pp_binder prefix) bs)) = true.
+Proof. exact printed_variant_pattern_has_no_rest. Qed.
+Print Assumptions c12_printed_variant_pattern_has_no_rest.
+
 Theorem c12_variant_arity : forall j id path elems e,
   elems <> [] -> lowered_arity (expand j (PEnum id path elems) e) = Some (List.length elems).
 Proof. exact variant_pattern_arity. Qed.
